@@ -30,8 +30,10 @@ def t3Command (idm : Bytes) (code : Nat) (data : Bytes) : Py Bytes :=
   let n := 2 + idm.length + data.length
   if n > 255 then .error .value else .ok ([n, code] ++ idm ++ data)
 
-/-- the checks of `send_cmd_recv_rsp` (send_idm, check_status) on an arrived frame -/
+/-- the checks of `send_cmd_recv_rsp` (send_idm, check_status) on an arrived frame of any length
+(`len(rsp) < 12 or rsp[0] != len(rsp)` is the first check) -/
 def t3Response (idm : Bytes) (code : Nat) (rsp : Bytes) : Py Bytes :=
+  if rsp.length < 12 then .error (.tagCmd 1) else
   idx rsp 0 >>= fun l =>
   if l ≠ rsp.length then .error (.tagCmd 1) else
   idx rsp 1 >>= fun c =>
